@@ -8,7 +8,7 @@ the set of overlapped pages' is not decided (integer arithmetic over unbounded v
 """
 import re
 
-from ..mir import deep_strip, tstr, strip_generics, canon, subterms, is_call, implies_lt
+from ..mir import deep_strip, tstr, strip_generics, canon, subterms, is_call, implies_lt, implies_nonzero
 from .. import effects, fixtures
 from . import c05, c08
 
@@ -229,8 +229,7 @@ def rule_range_form(rep, prog):
                 y = y[1]
             last_ok = x == start and y[0] == 'bin' and y[1].startswith("Sub") and deep_strip(y[2]) == ln and deep_strip(y[3]) == ('const', 1)
         facts = b.facts_at(rpos)
-        nz = any(r[0] == 'cmp' and r[1] == 'Ne' and r[2] == ln and r[3] == ('const', 0) for r in facts) or \
-            any(r[0] == 'cmp' and r[1] == 'Gt' and r[2] == ln and r[3] == ('const', 0) for r in facts)
+        nz = implies_nonzero(facts, ln)
         ok = first_ok and last_ok and nz
         detail = f"range = ({tstr(first)}) ..= ({tstr(last)}); first_ok={first_ok} last_ok={last_ok} len!=0 dominates={nz}"
     rep("R9.3.range_form", b.key, ok, b.where(),
